@@ -105,6 +105,12 @@ def build(root, block_size=4096, comp_id=1, data_comp=False, mtime=0, flags=None
     for n in order:
         if n["type"] != "file":
             continue
+        if n.get("same_as") is not None:
+            # stored once: shares location, block list and fragment with an earlier file (what deduplication produces)
+            o_ = by_id[n["same_as"]]
+            n["data"] = o_.get("data", b"")
+            n["_blocks_start"], n["_words"], n["_frag"] = o_["_blocks_start"], list(o_["_words"]), o_["_frag"]
+            continue
         d = n.get("data", b"")
         nb = len(d) // B
         use_frag = n.get("frag", False) and len(d) % B
